@@ -169,6 +169,39 @@ theorem client_first_read_failure (C : Crypto) (c : CReader) (now : Int) (n : Na
   · exact Or.inl (client_failed C _ e h now')
   · exact Or.inr h
 
+/-- **failed_open_keeps_nonce** (the nonce counter is only advanced by a successful open — the state
+invariant the property's anchors name): a `read` that fails authentication leaves the counter at the
+number of chunks it did open: unchanged if the length chunk did not open, advanced by one if the length
+chunk opened and the payload chunk did not. Depends on the regenerated fact
+`decryptAdvancesOnlyOnSuccess` (the three `Decrypt*` helpers increment inside `if err == nil`). Since
+the repair of F22 a failed conn refuses every later read, so a violation of this invariant alone can no
+longer be turned into delivered bytes; the check then names this theorem as the broken obligation. -/
+theorem failed_open_keeps_nonce (C : Crypto) (k : Bytes) (n : Nat) (w : Bytes)
+    (h : (readChunk C k n w).res = .error .auth) :
+    (readChunk C k n w).nonce = n ∨ (readChunk C k n w).nonce = n + 1 ∧ ∃ c1 lp, C.dec k n c1 = some lp := by
+  have hf : decryptAdvancesOnlyOnSuccess = true := by decide
+  unfold readChunk at h ⊢
+  split at h
+  · left; rfl
+  · rename_i c1 w1 hrf
+    split at h
+    · left; simp [failNonce, hf]
+    · rename_i lp hd
+      right
+      refine ⟨?_, c1, lp, hd⟩
+      simp only [] at h ⊢
+      by_cases h0 : unbe16 lp = 0
+      · simp [h0] at h
+      · simp only [h0, ↓reduceIte] at h ⊢
+        cases hr2 : readFull (unbe16 lp + tagSize) w1 with
+        | error e => rfl
+        | ok r2 =>
+          obtain ⟨c2, w2⟩ := r2
+          simp only [hr2] at h ⊢
+          cases hd2 : C.dec k (n + 1) c2 with
+          | none => simp [failNonce, hf]
+          | some p => simp [hd2] at h
+
 end SSV.C02
 
 #print axioms SSV.C02.authCrypto_auth
@@ -182,3 +215,4 @@ end SSV.C02
 #print axioms SSV.C02.failed_conn_stays_failed
 #print axioms SSV.C02.retryable_iff_nothing_consumed
 #print axioms SSV.C02.client_first_read_failure
+#print axioms SSV.C02.failed_open_keeps_nonce
